@@ -88,3 +88,31 @@ Proof.
   - split; cbn; [repeat constructor; lia|lia].
   - split; vm_compute; reflexivity.
 Qed.
+
+(* The usable-interval rule evaluated by the C10 monitor on the implementation's evaluations, as
+   three facts about the model: (1) an evaluation that finds a member not alive leaves its sampling
+   window without intervals; (2) a report adds an interval only when it comes at most max_interval
+   after the previous report, and never removes the need for one; (3) a member is found alive only
+   if its window holds an interval (C10_needs_two_reports).  Hence: alive at an evaluation implies
+   two reports at most max_interval apart since the evaluation that last found it not alive. *)
+Theorem C10_window_emptied_when_found_not_alive : forall cfg now f i oracle w,
+  fd_is_alive cfg now f i oracle = false -> wm_get i (fd_samples f) = Some w ->
+  wm_get i (fd_samples (fd_update_node_liveness cfg now f i oracle)) = Some (win_reset w) /\
+  wd_vals (win_reset w) = [].
+Proof.
+  intros cfg now f i oracle w Hna Hw. unfold fd_update_node_liveness. rewrite Hna, Hw. cbn [fd_samples].
+  split; [|reflexivity].
+  apply (sm_get_insert_same id_cmp id_cmp_eq).
+Qed.
+Print Assumptions C10_window_emptied_when_found_not_alive.
+
+Theorem C10_interval_recorded_only_within_max_interval : forall cfg now w,
+  wd_vals (win_report cfg now w) = wd_vals w \/
+  exists last, wd_last w = Some last /\ now - last <= max_interval cfg /\
+               wd_vals (win_report cfg now w) = firstn (window_size cfg) ((now - last) :: wd_vals w).
+Proof.
+  intros cfg now w. unfold win_report. destruct (wd_last w) as [last|]; [|left; reflexivity].
+  destruct (now - last <=? max_interval cfg) eqn:E; [|left; reflexivity].
+  right. exists last. split; [reflexivity|]. split; [apply Z.leb_le; exact E|reflexivity].
+Qed.
+Print Assumptions C10_interval_recorded_only_within_max_interval.
